@@ -120,7 +120,7 @@ def _extract_tuples(text: str) -> List[list]:
     k = 0
     while k < len(lines):
         line = lines[k]
-        if line.startswith('<<"'):
+        if re.match(r'^<<\s*"', line):
             buf = line
             depth = buf.count('<<') - buf.count('>>')
             while depth > 0 and k + 1 < len(lines):
